@@ -213,8 +213,8 @@ pub fn run(tier: Tier, i: usize) -> CaseOutcome {
         }
     }
     if tier == Tier::Thorough {
-        for j in (0..n).step_by(5) {
-            for k in (0..n).step_by(7) {
+        for j in 0..n {
+            for k in 0..n {
                 if let Ok(v) = spawn(2, &[j, k, i, i], false) {
                     o.evals += 1;
                     if v[3]["digest"].as_str() != Some(d0.as_str()) || v[4]["digest"].as_str() != Some(d0.as_str()) {
@@ -255,6 +255,6 @@ impl Check for C05 {
         run(tier, idx)
     }
     fn bounds(&self, tier: Tier) -> Value {
-        json!({"programs": CORPUS.len(), "hash_seeds": if tier == Tier::Quick { 16 } else { 64 }, "histories": "all ordered pairs (thorough: + triples)"})
+        json!({"programs": CORPUS.len(), "hash_seeds": if tier == Tier::Quick { 16 } else { 64 }, "histories": "all ordered pairs (thorough: + all ordered triples)"})
     }
 }
